@@ -17,7 +17,7 @@ RULE = (
     'key, action key, action kind (uniform in [-1,1], bang-bang, held-constant, zero) and episode_length in {8, 60, 1000}, float32, through '
     'training.wrap(env, episode_length, 1); quick: batch 8 x 200 steps, thorough: batch 128 x 1000 steps, one lax.scan. Oracle: '
     'observation size, done = 0 at reset, action size accepted, the whole rollout repeated from the same keys is bit-identical, member 0 '
-    'is bit-identical when all other members get other keys and actions, and at every step obs/reward/done/q/qd are finite, done in '
+    'is bit-identical when all other members get other keys and actions, with constant actions the second episode replays the first, and at every step obs/reward/done/q/qd are finite, done in '
     '{0,1}, | |link rotation| - 1 | <= 2e-6. Non-trivial: the rollout contains a termination or truncation, or >= 200 steps with '
     '|action| > 0.5. Distinct: (env, backend, keys, action kind, episode_length).')
 ASSUMPTIONS = ['the property quantifies over all action sequences; a sampled search only covers the sequences run (stated in the evidence)',
@@ -136,20 +136,36 @@ def check(c, ctx=None):
   for k in ('done', 'trunc'):
     if not np.array_equal(o[k][:, 0], o3[k][:, 0]):
       raise Violation('independence', f'{where}: member 0 {k} history changes when the other members change', labels={'check': 'independence', 'env': c['env']})
+  # constant actions: AutoResetWrapper restores the first state, so every later episode of a member must replay its
+  # first episode exactly (nothing may leak across the episode boundary through metrics or info)
+  replayed = False
+  if c['kind'] in ('held', 'zero'):
+    ends = np.flatnonzero(o['done'][:, 0] == 1)
+    if len(ends) >= 2:
+      l1, l2 = ends[0] + 1, ends[1] - ends[0]
+      n = min(l1, l2)
+      a, b_ = slice(0, n), slice(l1, l1 + n)
+      replayed = True
+      for k in ('rew0', 'obs0'):
+        if not np.array_equal(o[k][a], o[k][b_], equal_nan=True):
+          t = int(np.argwhere(np.any(np.atleast_2d((o[k][a] != o[k][b_]).reshape(n, -1)), axis=1))[0][0])
+          raise Violation('episode_replay', f'{where}: with constant actions the second episode of member 0 differs from its first in {k} at episode '
+                          f'step {t} ({o[k][a][t]} vs {o[k][b_][t]}): something other than the reset state and the actions enters the step',
+                          labels={'check': 'episode_replay', 'env': c['env']})
   ended = bool(o['done'].any())
   nt = ended or (c['kind'] in ('uniform', 'bang_bang') and c['nsteps'] >= 200)
   return dict(fp=fingerprint(c), nontrivial=bool(nt), evals=c['batch'] * c['nsteps'],
               labels=[f'env:{c["env"]}', f'backend:{c["backend"]}', f'kind:{c["kind"]}', f'episode_length:{c["episode_length"]}',
-                      'has_episode_end' if ended else 'no_episode_end', 'has_truncation' if o['trunc'].any() else 'no_truncation'],
+                      'has_episode_end' if ended else 'no_episode_end', 'episode_replay_checked' if replayed else 'no_replay_check', 'has_truncation' if o['trunc'].any() else 'no_truncation'],
               sample={k: c[k] for k in ('env', 'backend', 'kind', 'episode_length', 'batch', 'nsteps', 'reset_key', 'action_key')} |
               {'episode_ends': int(o['done'].sum()), 'truncations': int(o['trunc'].sum()), 'max_rotation_norm_error': rd})
 
 
 @st.composite
-def cases(draw, env, backend, batch, nsteps, ep_lens):
+def cases(draw, env, backend, batch, nsteps, ep_lens, kinds=None):
   k32 = st.lists(st.integers(0, 2**32 - 1), min_size=2, max_size=2)
   return {'env': env, 'backend': backend, 'batch': batch, 'nsteps': nsteps, 'episode_length': draw(st.sampled_from(ep_lens)),
-          'kind': draw(st.sampled_from(KINDS[:3] + ['uniform', 'bang_bang', 'zero'])), 'reset_key': draw(k32), 'action_key': draw(k32),
+          'kind': draw(st.sampled_from(kinds or (KINDS[:3] + ['uniform', 'bang_bang', 'zero']))), 'reset_key': draw(k32), 'action_key': draw(k32),
           'other_key': draw(k32)}
 
 
@@ -173,7 +189,13 @@ def tasks(tier, seed):
 
 def run_task(task, ctx):
   strat = cases(task['env'], task['backend'], task['batch'], task['nsteps'], task['ep_lens'])
-  ctx.run_given(strat, lambda c: check(c, ctx), task['n'], task['seed'], skip_simplest=True)
+  if ctx.run_given(strat, lambda c: check(c, ctx), task['n'], task['seed'], skip_simplest=True):
+    return
+  # one more rollout with constant actions for every combination: the episode-replay oracle needs them
+  from vf.harness import derive_seed
+  const = cases(task['env'], task['backend'], task['batch'], task['nsteps'], [e for e in task['ep_lens'] if e <= 60] or task['ep_lens'],
+                kinds=['held', 'zero', 'held'])
+  ctx.run_given(const, lambda c: check(c, ctx), 1, derive_seed(task['seed'], 'const'), skip_simplest=True)
 
 
 def replay(case, check_name=None):
